@@ -130,6 +130,9 @@ class Sym:
             for t in tg:
                 if t.kind == "ext" and t.name.endswith("unquote") and e.args:
                     return [a.add(("unquote",)) for a in self.alts(e.args[0], node, depth + 1)]
+                if t.kind == "ext" and t.name.split(".")[-1] in ("unquote_plus", "unquote_to_bytes") and e.args:
+                    # a decoder of another convention (form encoding: '+' is a space): ordered like unquote, reported below
+                    return [a.add(("unquote",)).add(("when", "decoder:" + t.name.split(".")[-1], True)) for a in self.alts(e.args[0], node, depth + 1)]
                 if t.kind == "builtin" and t.name in ("int", "str", "list", "tuple", "iter") and e.args:
                     return [a.add((t.name,)) for a in self.alts(e.args[0], node, depth + 1)]
             return [Alt([("other", norm(e)[:50])])]
@@ -188,6 +191,11 @@ def run_rules(ctx):
         raise AnalysisError("resolve_fragment: cannot extract how the token list is computed")
     saw_drop = False
     for a in nonempty:
+        for o in a.ops:
+            if o[0] == "when" and str(o[1]).startswith("decoder:"):
+                r2.fail("%s|decoder|%s" % (f.qual, o[1][8:]), site(f, loop.ast),
+                        "the fragment is decoded with %s, not urllib.parse.unquote: '+' becomes a space, so the keys 'a+b' and 'a b' "
+                        "are confused (RFC 3986 has no such convention in fragments)" % o[1][8:])
         ops = [o for o in a.ops if o[0] != "when"]
         kinds = [o[0] for o in ops]
         desc = " > ".join("%s%s" % (o[0], list(o[1:]) if len(o) > 1 else "") for o in ops)
